@@ -25,8 +25,10 @@ PLAN = {
                 quick=[("linux", "R1", None), ("linux", "I1", 6000), ("linux", "I2", None), ("linux", "I3", None)],
                 thorough=[("linux", "R1", None), ("linux", "I1", None), ("linux", "I2", None), ("linux", "I3", None)]),
     "C18": dict(mode="merge", tags={"C18"}, crash_is_violation=True,
-                quick=[("asa", "M1", None), ("ios", "M1", None), ("linux", "M1", None), ("panos", "M1", None), ("nsx", "M1", None)],
-                thorough=[("asa", "M1", None), ("ios", "M1", None), ("linux", "M1", None), ("panos", "M1", None), ("nsx", "M1", None)]),
+                quick=[("asa", "M1", None), ("ios", "M1", None), ("linux", "M1", None), ("panos", "M1", None), ("nsx", "M1", None),
+                       ("asa", "M2L", 4000), ("ios", "M2L", 4000), ("panos", "M2", None)],
+                thorough=[("asa", "M1", None), ("ios", "M1", None), ("linux", "M1", None), ("panos", "M1", None), ("nsx", "M1", None),
+                          ("asa", "M2L", None), ("ios", "M2L", None), ("panos", "M2", None)]),
     "C16": dict(mode="det", tags={"C16"}, spec="DetTrace", level="exploration",
                 quick=[("asa", "F9", 5000), ("asa", "F2", 2000), ("asa", "F7", 1000), ("ios", "F8", 1000),
                        ("ios", "F3", 1000), ("ios", "V1L", 800), ("panos", "P2", 1500), ("linux", "I1", 500), ("nsx", "N1", 1500), ("nsx", "N3", None),
@@ -35,9 +37,9 @@ PLAN = {
                           ("ios", "F8", 20000), ("ios", "F3", 10000), ("ios", "F7", 5000)]),
     "C02": dict(mode="conv", tags={"EQUIV", "FIXPOINT"},
                 quick=[("ios", "F1L", 4000), ("ios", "F1", 5000), ("ios", "F8", 5000), ("ios", "F3", 3000),
-                       ("ios", "F4", 2500), ("ios", "F7", 2000), ("ios", "V1L", 3000)],
+                       ("ios", "F4", 2500), ("ios", "F7", 2000), ("ios", "V1L", 3000), ("ios", "V2", 600)],
                 thorough=[("ios", "F1L", None), ("ios", "F1", None), ("ios", "F8", 60000), ("ios", "F3", None),
-                          ("ios", "F4", None), ("ios", "F7", None), ("ios", "V1L", None)]),
+                          ("ios", "F4", None), ("ios", "F7", None), ("ios", "V1L", None), ("ios", "V2", None)]),
     "C01": dict(mode="conv", tags={"EQUIV", "FIXPOINT"},
                 quick=[("asa", "F1L", 3000), ("asa", "F1", 4000), ("asa", "F2", 6000), ("asa", "F3", 2000),
                        ("asa", "F4", 1500), ("asa", "F7", 2000), ("asav", "F5", 4000), ("asav", "F6L", 2400)],
@@ -45,10 +47,10 @@ PLAN = {
                           ("asa", "F4", None), ("asa", "F7", 30000), ("asav", "F5", None), ("asav", "F6L", None)]),
     "C07": dict(mode="conv", tags={"C07"},
                 quick=[("asav", "F5", 3000), ("asav", "F6L", 1800), ("asa", "F7", 6000), ("asa", "F2", 1500), ("asa", "F3", 1000), ("asa", "F4", 1000),
-                       ("ios", "F7", 5000), ("ios", "F3", 1500), ("ios", "F4", 1500), ("ios", "V1L", 1500), ("panos", "P7", None),
+                       ("ios", "F7", 5000), ("ios", "F3", 1500), ("ios", "F4", 1500), ("ios", "V1L", 1500), ("ios", "V2", 600), ("panos", "P7", None),
                        ("panos", "P2", 1500), ("nsx", "N1", 1500), ("nsx", "N2", None)],
                 thorough=[("asav", "F5", None), ("asav", "F6L", None), ("asa", "F7", None), ("asa", "F2", 30000), ("asa", "F3", 30000), ("asa", "F4", None),
-                          ("ios", "F7", None), ("ios", "F3", None), ("ios", "F4", None), ("ios", "V1L", None), ("panos", "P7", None),
+                          ("ios", "F7", None), ("ios", "F3", None), ("ios", "F4", None), ("ios", "V1L", None), ("ios", "V2", None), ("panos", "P7", None),
                           ("panos", "P2", None), ("panos", "P1", None), ("nsx", "N1", None), ("nsx", "N2", None)]),
     "C08": dict(mode="conv", tags={"C08"},
                 quick=[("asav", "F5", 4000), ("asav", "F6L", 2400), ("asa", "F1", 2000), ("asa", "F2", 6000), ("asa", "F3", 2000),
@@ -79,12 +81,14 @@ PLAN = {
                           ("panos", "P1", None), ("panos", "P2", None), ("panos", "P3", None)]),
 }
 
-IOS_FAMS = {"V1L": {"MaxLen": 3}, "F1L": {"MaxLen": 5}, "F1": {"MaxLen": 3}, "F3": {"MaxLen": 3}, "F4": {"MaxLen": 3}, "F7": {"MaxLen": 2},
+IOS_FAMS = {"V2": {"MaxLen": 2}, "V1L": {"MaxLen": 3}, "F1L": {"MaxLen": 5}, "F1": {"MaxLen": 3}, "F3": {"MaxLen": 3}, "F4": {"MaxLen": 3}, "F7": {"MaxLen": 2},
             "F8": {"MaxLen": 3}}
 LINUX_FAMS = {"I3": {"MaxLen": 2}, "R1": {"MaxLen": 3}, "I1": {"MaxLen": 2}, "I2": {"MaxLen": 2}, "M1": {"MaxLen": 3}}
 ASA_FAMS["M1"] = {"MaxLen": 3}
 IOS_FAMS["M1"] = {"MaxLen": 3}
-PANOS_FAMS = {"M1": {"MaxLen": 3}, "P1": {"MaxLen": 3}, "P2": {"MaxLen": 2}, "P3": {"MaxLen": 2}, "P7": {"MaxLen": 2}}
+ASA_FAMS["M2L"] = {"MaxLen": 3}
+IOS_FAMS["M2L"] = {"MaxLen": 3}
+PANOS_FAMS = {"M2": {"MaxLen": 3}, "M1": {"MaxLen": 3}, "P1": {"MaxLen": 3}, "P2": {"MaxLen": 2}, "P3": {"MaxLen": 2}, "P7": {"MaxLen": 2}}
 NSX_FAMS = {"M1": {"MaxLen": 3}, "N1": {"MaxLen": 3}, "N2": {"MaxLen": 2}, "N3": {"MaxLen": 3}}
 FAM_CONSTS = {"asav": {"F5": {"MaxLen": 3}, "F6L": {"MaxLen": 3}}, "asa": ASA_FAMS, "ios": IOS_FAMS, "linux": LINUX_FAMS, "panos": PANOS_FAMS, "nsx": NSX_FAMS}
 
